@@ -2,10 +2,10 @@
 #include "h_anydata_impl.h"
 
 namespace vfad {
-#define VF_ROW(N) { &runCase<N, 0, 1>, &runCase<N, 1, 1>, &runCase<N, 2, 1>, &runCase<N, 3, 1>, &runCase<N, 4, 1> },
+#define VF_ROW(N) { &runCase<N, 0, 1>, &runCase<N, 1, 1>, &runCase<N, 2, 1>, &runCase<N, 3, 1>, &runCase<N, 4, 1>, &runCase<N, 5, 1> },
 CaseFn caseTable1(int sizeIndex, int kind)
 {
-	static const CaseFn table[kNumSizes][5] = { VF_SIZES(VF_ROW) };
+	static const CaseFn table[kNumSizes][6] = { VF_SIZES(VF_ROW) };
 	return table[sizeIndex][kind];
 }
 } // namespace vfad
